@@ -11,7 +11,7 @@ from concurrent.futures import ThreadPoolExecutor
 
 V = os.path.dirname(os.path.dirname(os.path.abspath(__file__)))
 BASE = "/tmp/sp"
-EXTRA = {"C18-4": ["C18", "C19"]}
+EXTRA = {"C18-4": ["C18", "C19"], "C06-12": ["C06", "C07"], "C20-10": ["C20", "C19"]}
 
 
 def sh(cmd, **kw):
@@ -32,7 +32,7 @@ def one(seed, checks):
         assert rc == 0, o
         rc, o = sh("git -C /repo worktree add --detach %s HEAD" % repo)
         assert rc == 0, o
-        rc, o = sh("git -C %s apply %s" % (repo, os.path.join(V, "seeded", seed, "patch.diff")))
+        rc, o = (0, "") if seed.startswith("CLEAN") else sh("git -C %s apply %s" % (repo, os.path.join(V, "seeded", seed, "patch.diff")))
         if rc != 0:
             # written against an earlier HEAD (before later fix: commits): merge it
             rc, o = sh("git -C %s apply --3way %s" % (repo, os.path.join(V, "seeded", seed, "patch.diff")))
@@ -59,7 +59,7 @@ def one(seed, checks):
     finally:
         sh("git -C /repo worktree remove --force %s" % repo)
         shutil.rmtree(base, ignore_errors=True)
-    if NOSTORE:
+    if NOSTORE or seed.startswith("CLEAN"):
         return seed, {c: (d["exit"], str(d["replay_required"])[:110]) for c, d in det.items()}
     mp = os.path.join(V, "seeded", seed, "meta.json")
     meta = json.load(open(mp))
@@ -98,7 +98,7 @@ def main():
     os.makedirs(BASE, exist_ok=True)
     bad = 0
     with ThreadPoolExecutor(j) as ex:
-        futs = [ex.submit(one, s, checks or EXTRA.get(s) or [s.split("-")[0]]) for s in ids]
+        futs = [ex.submit(one, s, checks or EXTRA.get(s) or [s.split("-")[1 if s.startswith("CLEAN-") else 0]]) for s in ids]     # CLEAN-<x>: the unchanged tree, needs --checks
         for f in futs:
             try:
                 seed, r = f.result()
